@@ -166,6 +166,8 @@ func (e *Engine) resolveType(text string, pkg *types.Package) types.Type {
 	switch {
 	case text == "":
 		return nil
+	case text == "interface{}" || text == "any":
+		return types.NewInterfaceType(nil, nil)
 	case strings.HasPrefix(text, "*"):
 		if t := e.resolveType(text[1:], pkg); t != nil {
 			return types.NewPointer(t)
